@@ -580,6 +580,11 @@ static var Table_Iter_Init(var self) {
 }
 
 static var Table_Iter_Next(var self, var curr) {
+#if CELLO_NULL_CHECK == 1
+  if (curr is NULL) {
+    return throw(ValueError, "Received NULL as iteration position");
+  }
+#endif
   struct Table* t = self;
   
   curr = (char*)curr + Table_Step(t);
@@ -615,6 +620,11 @@ static var Table_Iter_Last(var self) {
 }
 
 static var Table_Iter_Prev(var self, var curr) {
+#if CELLO_NULL_CHECK == 1
+  if (curr is NULL) {
+    return throw(ValueError, "Received NULL as iteration position");
+  }
+#endif
   struct Table* t = self;
   
   curr = (char*)curr - Table_Step(t);
